@@ -139,7 +139,7 @@ class Unit:
                 i += 1
                 while i < n and src[i].strip().startswith('//@') and not re.match(r'//@(item|fn|unit|lemma|end|trusted)\b', src[i].strip()):
                     t = src[i].strip()[3:].strip()
-                    if t.startswith('sub '):
+                    if t.startswith('sub ') or t.startswith('sub? '):
                         subs.append(self._parse_sub(t))
                     i += 1
                 it = X.extract_item(read_repo(rel), block, kind, name)
@@ -243,10 +243,10 @@ class Unit:
     @staticmethod
     def _parse_sub(t):
         # sub /regex/ => replacement
-        m = re.match(r'sub\s+/(.*)/\s*=>\s*(.*)$', t)
+        m = re.match(r'sub(\??)\s+/(.*)/\s*=>\s*(.*)$', t)
         if not m:
             raise X.AnchorError('bad sub directive: ' + t)
-        return (m.group(1), m.group(2))
+        return (m.group(2), m.group(3), m.group(1) == '?')
 
     def _emit_fn(self, src, rel, block, name, spec, rw, emit, cur_line, add_labelled):
         it = X.extract_item(src, block, 'fn', name)
@@ -266,6 +266,7 @@ class Unit:
         rename = None
         sig_override = None
         arm = None
+        nodecreases = False
         mode = 'clauses'
         cur = None
         for ln in spec:
@@ -283,7 +284,7 @@ class Unit:
                     cur.append('@@GHOST@@')      # raw `let ghost` lines: not wrapped in proof { }
                 proofs.append((m.group(2), cur, m.group(1), int(m.group(3) or 0)))
                 continue
-            if t.startswith('sub '):
+            if t.startswith('sub ') or t.startswith('sub? '):
                 subs.append(self._parse_sub(t))
                 continue
             m = re.match(r'ret\s+(\w+)\s*$', t)
@@ -308,6 +309,9 @@ class Unit:
             m = re.match(r'rename\s+(\w+)\s*$', t)
             if m:
                 rename = m.group(1)
+                continue
+            if t == 'nodecreases':
+                nodecreases = True
                 continue
             m = re.match(r'arm\s+/(.*)/\s*=>\s*(fn\s+(\w+).*)$', t)
             if m:
@@ -432,6 +436,11 @@ class Unit:
         inserts.sort(key=lambda x: x[0])
 
         fn_l0 = cur_line()
+        if nodecreases:
+            # R12: termination of this function (its loops / its recursion) is NOT checked; partial
+            # correctness only.  Stated per unit under //@trusted.
+            emit('#[verifier::exec_allows_no_decreases_clause]')
+            rw.bump('R12')
         # signature (R4)
         sig = head
         if ret:
